@@ -15,7 +15,8 @@ from .c01 import lex_spans
 
 PROP = "C11"
 
-VARS = 'a = 1; s = "str"; d = 2.5; b = raw("b"); t = tab(3, 1); r = tup(1, "x"); $k = 5; n = null; tt = tab(2, tab(2, 0)); ty:integer; e = 0; i = 0;'
+VARS = ('a = 1; s = "str"; d = 2.5; b = raw("b"); t = tab(3, 1); r = tup(1, "x"); $k = 5; n = null; tt = tab(2, tab(2, 0)); ty:integer; e = 0; i = 0; '
+        'tq = tab(2, tup(1, "x")); rq = tup(3, "r");')
 FUNS = ('function f1(x) return integer is begin return x + 1; end;\n'
         'function f2(x, y) return integer is begin return x * y; end;\n'
         'function f2(x) return integer is begin return -x; end;\n'
@@ -51,6 +52,10 @@ QS = [
     "for i in 1 to 2 loop forall e in t loop begin a = a + e * i; exception when others then a = 0; end; end loop; end loop;",
     "function f2(x) return integer is begin begin return fr(x); exception when others then return 0; end; end;",
     "n = tab(2, tup(1, 2)); forall e in n loop e.set@1(3); end loop;",
+    # structured variables re-typed with another rank / another structure
+    'tq = tup(1, "x", 2.5); rq = tab(2, tup(5, "w"));',
+    'tq = tab(1, tab(1, tup(1, "x"))); rq = tup("s", 1);',
+    'if a > 100 then tq = 5; rq = "s"; r = tab(1, tup(1, "x")); end if;',
 ]
 POISON = [")", "end", ";", '"unterminated', "@", "1x", "loop", "=", "nosuchname", "then"]
 DIRECT_R = ["import nosuchmodule;", 'include "/nonexistent/file.bloc";', "a = nosuch + 1;", "f1();", "f9(1);", "t.nosuch(1);", "a = 1 +;", "$k = \"s\";",
@@ -63,10 +68,33 @@ PROBES = ('print a s d $k isnull(n) typeof(ty) r@1 r@2 t.count() tt.count() b.co
           'forall pe in t loop put pe " "; end loop; print "";\n'
           't.concat(42); tt.at(0).put(0, 7); r.set@1(11); s.concat("?"); b.concat(1); print t.at(t.count() - 1) tt.at(0).at(0) r@1 s b.count();\n'
           'a = "retyped"; d = "retyped"; n = 5; e = "s"; i = "s"; print a d n e i;\n'
-          '$k = 77; print $k;\n')
+          '$k = 77; print $k;\n'
+          'tq.at(0).set@2("y"); rq.set@2("s"); tq.concat(tup(9, "z")); print tq.at(0)@2 tq.count() tq.at(2)@1 rq@2 rq@1;\n')
 FPROBES = ('print f1(1) f2(2, 3) f2(4) fr(4) f3();\n'
            'function f1(x) return integer is begin return x + 1000; end; print f1(1) f2(2, 3) f2(4) fr(4) f3();\n'
            'function zlast() return integer is begin return 5; end; print zlast();\n')
+
+
+def inc_path():
+    """a source file that redefines existing functions and declares a new one: included successfully by a text that fails later"""
+    import os
+    from .. import build
+    d = os.path.join(build.BUILD, "scratch")
+    os.makedirs(d, exist_ok=True)
+    p = os.path.join(d, "c11-include.bloc")
+    if not os.path.exists(p):
+        with open(p, "w") as f:
+            f.write('function f1(x) return integer is begin return x + 500; end;\nfunction f3() return string is begin return "included"; end;\n'
+                    'function ginc() return integer is begin return 1; end;\nzinc = 5;\n')
+    return p
+
+
+def include_rejected():
+    p = inc_path()
+    return ['include "%s"; a = 1 +;' % p, 'include "%s"; zz9 = nosuch;' % p, 'include "%s"; include "%s"; a = ;' % (p, p),
+            'function f1(x) return integer is begin return x + 300; end; include "%s"; a = ;' % p,
+            'include "%s"; function f2(x) return integer is begin return x +; end;' % p,
+            'for i in 1 to 2 loop include "%s"; end loop;' % p]
 
 
 def rejected_variants(q):
@@ -103,6 +131,8 @@ def gen_factory(tier):
                     items.append(("q%d:%s" % (qi, tag), r))
             for k, r in enumerate(DIRECT_R):
                 items.append(("direct%d" % k, r))
+            for k, r in enumerate(include_rejected()):
+                items.append(("include%d" % k, r))
             # rejected texts that (re)declare several functions - also the same one twice, with different bodies - before the error
             decls = [("f1a", "function f1(x) return integer is begin return x + 100; end;"), ("f1b", "function f1(x) return integer is begin return x + 200; end;"),
                      ("f2a", "function f2(x, y) return integer is begin return x - y; end;"), ("f2b", "function f2(x) return integer is begin return x + 7; end;"),
